@@ -80,15 +80,22 @@ func PmtAccumulatorDoneFunc(b []byte) (bool, error) {
 	}
 
 	sectionBytes := b[start:]
-	for len(sectionBytes) > 2 && sectionBytes[0] != 0xFF {
+	sections := 0
+	for len(sectionBytes) > 0 && sectionBytes[0] != 0xFF {
+		if len(sectionBytes) < 3 {
+			// the section header itself is not complete yet
+			return false, nil
+		}
 		tableLength := sectionLength(sectionBytes)
 		if len(sectionBytes) < int(tableLength)+3 {
 			return false, nil
 		}
 		sectionBytes = sectionBytes[3+tableLength:]
+		sections++
 	}
 
-	return true, nil
+	// nothing after the pointer field yet: the first section is still to come
+	return sections > 0 || len(sectionBytes) > 0, nil
 }
 
 // NewPMT Creates a new PMT from the given bytes.
